@@ -9,8 +9,13 @@ REPLICA_TRUST = COMMON_TRUST + CRYPTO_TRUST + [
 ]
 
 PROP = Property(
-    "C03", ["HsVerif.Props.C03", "HsVerif.Props.C03Cur"], [ReplicaFam("c03")],
+    "C03", ["HsVerif.Props.C03", "HsVerif.Props.C03Cur", "HsVerif.Props.C03Gen"], [ReplicaFam("c03")],
     facts=[
+        # Props/C03Gen: Verify / Vote / StopVoting regenerated from voter.go; the two fields they keep are written by them only,
+        # and OnValidPropose (called by the proposal handler after Verify accepted) votes through Vote
+        {"func": "pkg:protocol/consensus#writers.Voter.lastVotedView", "exact": ["NewVoter", "Voter.StopVoting", "Voter.Vote"]},
+        {"func": "pkg:protocol/consensus#writers.Voter.lastVotedQCView", "exact": ["Voter.Vote"]},
+        {"func": "protocol/consensus/voter.go:Voter.OnValidPropose", "order": ["TryCommit", "Vote", "Aggregate"]},
         {"func": "protocol/consensus/voter.go:Voter.Verify", "order": ["View", "VoteRule", "VerifyAnyQC", "QuorumCert", "Parent", "GetLeader"]},
         {"func": "protocol/consensus/voter.go:Voter.Vote", "contains": ["CreatePartialCert", "View"]},
         {"func": "protocol/consensus/voter.go:Voter.OnValidPropose", "order": ["TryCommit", "Vote", "Aggregate"]},
@@ -26,5 +31,5 @@ PROP = Property(
 META = {
     "text": "Proof: over the executable replica model (all synchronizer/voter/proposer/committer/rules/voting-machine/block-store handlers and the event loop's queue and DelayUntil discipline, ~600 lines of Lean mirroring the Go code) the invariant Inv3 is preserved by every handler and hence holds after Start and ANY sequence of delivered events with arbitrary (Byzantine) content: votes_increasing (views of signed blocks strictly increase, so at most one vote per view), no_vote_after_timeout (a vote signed after a timeout for view v has view > v), vote_wellformed (sender is the leader of the block's view, parent = block certified by its QC, QC view < block view, QC accepted by the certificate verifier; with C02's soundness theorem: a quorum of distinct genuine signatures). Proved with Lean's Std.Do Hoare logic (mvcgen), all three rulesets at once. Strengthened (Props/C03Cur): votes_verify_now / vote_wellformed_now — the certificate of EVERY block the replica ever voted for verifies against the replica's CURRENT truth table and block store (truth table and store only grow: truth_grows_run, verifyQC_monotone; a certificate that verified once verifies for ever: verifyQC_stable_run), voted_blocks_stored, and external_extension_cur (the invariant survives outside additions to the signature table, which is what the system model needs). Tie: a real replica wired like twins/node.go (real synchronizer, voter, rules, voting machine, block store, authority; recording sender; wrapped signing primitive) is driven with the same scripts as the model — mostly honest runs around the replica plus injected crafted proposals (wrong leader, stale/future/far-future view, equivocation, forged/relabelled/nil QC, parent != certified block, view <= QC view), votes, timeouts, new-views — and every effect (each Sign request, each send, each event) and the state dump are compared line by line; an oracle re-checks the vote discipline on the implementation's signing log against ground truth.",
     "note": "Trusted: Lean kernel; model<->code tie by differential correspondence (generator quality bounds what it sees; distribution in the evidence); symbolic crypto assumptions; Go runtime. Models the code with all fix: commits applied (notably 'vote only for a block that directly extends the block certified by its QC').",
-    "technique": "Lean 4 invariant proof (Std.Do/mvcgen Hoare logic) over an executable replica model + differential correspondence with a real replica + signing-log oracle",
+    "technique": "Lean 4 invariant proof (Std.Do/mvcgen Hoare logic) over an executable replica model + differential correspondence with a real replica + signing-log oracle + Go->Lean translation of Voter.Verify/Vote/StopVoting with C03's statements proved on the regenerated code (Props/C03Gen)",
 }
